@@ -142,7 +142,7 @@ theorem blockHeaderEncode_uncomp (check n l2 : Nat) (hc : check ≤ 15) (hl0 : l
   omega
 
 theorem checkValue_length (check : Nat) (data cv : List UInt8) (h : checkValue check data = some cv) :
-    cv.length = checkSize check ∧ check ≤ 15 := by
+    cv.length = checkSize check ∧ check ≤ 15 ∧ checkSize check % 4 = 0 := by
   unfold checkValue at h
   by_cases h0 : check = 0
   · subst h0; simp at h; subst h; decide
@@ -161,7 +161,7 @@ theorem blockUncompEncode_fits (check : Nat) (data cv : List UInt8) (avail : Nat
     (hcv : checkValue check data = some cv) (hb : blockBufferBound64 data.length ≠ 0)
     (ha : blockBufferBound64 data.length ≤ avail) :
     ∃ b, blockUncompEncode check data avail = .ok b ∧ b.length ≤ blockBufferBound64 data.length := by
-  obtain ⟨hcvlen, hc15⟩ := checkValue_length check data cv hcv
+  obtain ⟨hcvlen, hc15, -⟩ := checkValue_length check data cv hcv
   have hcs := checkSize_le check hc15
   have hl0 : lzma2Bound data.length ≠ 0 := fun h => hb ((blockBufferBound64_zero_iff _).2 h)
   have hl2 := (lzma2Bound_spec data.length).2 hl0
@@ -179,5 +179,76 @@ theorem blockUncompEncode_fits (check : Nat) (data cv : List UInt8) (avail : Nat
   refine ⟨_, rfl, ?_⟩
   simp only [List.length_append, List.length_replicate, lzma2UncompressedChunks_length, hcvlen, ← hl2]
   omega
+
+/-- Every field of the Block `lzma_block_uncomp_encode` writes is truthful: the header decodes to Compressed Size =
+    the real length of the LZMA2 data that follows, Uncompressed Size = the input length, the single filter LZMA2 with
+    the minimum dictionary; then come the chunks, 0–3 zero bytes up to a multiple of four, and the Check of the input. -/
+theorem blockUncompEncode_valid (check : Nat) (data b : List UInt8) (avail : Nat)
+    (h : blockUncompEncode check data avail = .ok b) :
+    ∃ hdr cv, checkValue check data = some cv ∧
+      b = hdr ++ lzma2UncompressedChunks data ++ List.replicate ((4 - (lzma2UncompressedChunks data).length % 4) % 4) (0 : UInt8) ++ cv ∧
+      hdr.length = ((hdr.getD 0 0).toNat + 1) * 4 ∧
+      (∀ t, blockHeaderDecode check (hdr ++ t) = .ok { compressedSize := some (lzma2UncompressedChunks data).length,
+                                                         uncompressedSize := some data.length,
+                                                         filters := [⟨FILTER_LZMA2, [0x00]⟩] }) ∧
+      b.length ≤ avail := by
+  unfold blockUncompEncode at h
+  by_cases g1 : check > CHECK_ID_MAX
+  · rw [if_pos g1] at h; simp at h
+  · rw [if_neg g1] at h
+    cases hcv : checkValue check data with
+    | none => simp [hcv] at h
+    | some cv =>
+      simp only [hcv] at h
+      obtain ⟨hcvlen, -, hcs4⟩ := checkValue_length check data cv hcv
+      by_cases g2 : avail - avail % 4 ≤ checkSize check
+      · rw [if_pos g2] at h; simp at h
+      · rw [if_neg g2] at h
+        by_cases g3 : lzma2Bound data.length = 0
+        · rw [if_pos g3] at h; simp at h
+        · rw [if_neg g3] at h
+          have hl2 := (lzma2Bound_spec data.length).2 g3
+          have hclen := lzma2UncompressedChunks_length data
+          cases hh : blockHeaderEncode check (some (lzma2Bound data.length)) (some data.length) [.lzma2 DICT_SIZE_MIN] with
+          | error e => simp [hh] at h
+          | ok hdr =>
+            simp only [hh] at h
+            by_cases g4 : avail - avail % 4 - checkSize check < hdr.length + lzma2Bound data.length
+            · rw [if_pos g4] at h; simp at h
+            · rw [if_neg g4] at h
+              simp only [Except.ok.injEq] at h
+              have hw : ∀ o ∈ [FilterOpts.lzma2 DICT_SIZE_MIN], o.wf := by
+                intro o ho
+                simp only [List.mem_singleton] at ho
+                subst ho
+                simp [FilterOpts.wf, DICT_SIZE_MIN]
+              -- the header was produced by size + encode
+              unfold blockHeaderEncode at hh
+              cases hsz : blockHeaderSize 0 (some (lzma2Bound data.length)) (some data.length) [.lzma2 DICT_SIZE_MIN] with
+              | error e => simp [hsz] at hh
+              | ok hs =>
+                simp only [hsz] at hh
+                have hrt := fun t => blockHeader_roundtrip 0 hs check _ _ _ hdr t hw hh
+                obtain ⟨hlen, hs4, -, -, hb0, -⟩ := hrt []
+                refine ⟨hdr, cv, rfl, ?_, by rw [hb0, hlen], ?_, ?_⟩
+                · rw [← h, hclen, ← hl2]
+                · intro t
+                  obtain ⟨-, -, -, -, -, raws, hfa, hdec⟩ := hrt t
+                  rw [hdec, hclen, ← hl2]
+                  -- the only filter is LZMA2 with properties byte 0
+                  cases hfa with
+                  | cons hm hrest =>
+                    cases hrest
+                    obtain ⟨hid, hpe, -⟩ := hm
+                    rename_i r
+                    have hp : propsEncode (.lzma2 DICT_SIZE_MIN) = .ok [0x00] := by decide
+                    rw [hp] at hpe
+                    simp only [Except.ok.injEq] at hpe
+                    cases r
+                    simp only [FilterOpts.id] at hid
+                    simp_all
+                · rw [← h]
+                  simp only [List.length_append, List.length_replicate, hclen, hcvlen, ← hl2]
+                  omega
 
 end XzVerif.Container
